@@ -4,7 +4,8 @@
    FfiInt: convert_from_object, write / read back / compare) are equal to the range rule
    of ConvertArg, for EVERY Python value of the universe below and every integer type.
    Base = 4: char 2 bits, short 4, int 8, long long 16 bits; the universe holds every
-   integer of -Window..Window, all values within Edge of +-2^15, +-2^16 (the 64-bit
+   (and the two places that store a struct argument are equal to ConvStruct: zeroed, then
+   the given fields).  The universe holds every integer of -Window..Window, all values within Edge of +-2^15, +-2^16 (the 64-bit
    boundaries of this scale), far values, and the non-integer value classes. *)
 EXTENDS Call
 CONSTANTS Window, Edge, Variant
@@ -34,22 +35,47 @@ Others == {[k |-> "float", d |-> Zeros(8), f |-> Zeros(4), fd |-> Zeros(8)],
                 [k |-> "cint", ct |-> CharT, c |-> <<3>>]}
 Universe == {PyI(n) : n \in IntVals} \cup Others
 
-Init == t \in Types /\ v = None /\ phase = "start" /\ out = <<>>
+\* structs by value: the destination (argument slot / wrapper local) is garbage, zeroed, filled
+SA == [k |-> "struct", tag |-> "sA", fields |-> <<IntT(1, TRUE), IntT(4, TRUE)>>]
+SB == [k |-> "struct", tag |-> "sB", fields |-> <<IntT(2, FALSE), BoolT, IntT(1, TRUE)>>]
+StructTypes == {SA, SB}
+Lst(xs) == [k |-> "list", items |-> xs]
+Items == {PyI(0), PyI(1), PyI(0 - 1), PyI(3), PyI(200), [k |-> "none"]}
+StructVals == {Lst(<<>>)} \cup {Lst(<<a>>) : a \in Items} \cup {Lst(<<a, b>>) : a, b \in Items}
+              \cup {Lst(<<a, b, c>>) : a, b, c \in {PyI(1), PyI(0 - 1), [k |-> "none"]}}
+              \cup {Lst(<<PyI(1), PyI(1), PyI(1), PyI(1)>>), [k |-> "none"], PyI(0)}
+              \cup {[k |-> "dict", keys |-> ks, items |-> [j \in 1..Len(ks) |-> a]] :
+                       ks \in {<<>>, <<1>>, <<2>>, <<2, 1>>}, a \in {PyI(1), PyI(200), [k |-> "none"]}}
+              \cup {[k |-> "cstruct", ct |-> SA, vals |-> <<PyI(0 - 1), PyI(3)>>],
+                    [k |-> "cstruct", ct |-> SB, vals |-> <<PyI(3), PyI(1), PyI(1)>>]}
+Garbage(n) == [j \in 1..n |-> Base - 1]
+
+Init == t \in Types \cup StructTypes /\ v = None /\ phase = "start" /\ out = <<>>
 Pick == /\ phase = "start"
-        /\ v' \in Universe
+        /\ v' \in IF t.k = "struct" THEN {x \in StructVals : x.k # "dict" \/ \A j \in 1..Len(x.keys) : x.keys[j] <= Len(t.fields)}
+                   ELSE Universe
         /\ phase' = "arg"
         /\ UNCHANGED <<t, out>>
 Convert == /\ phase = "arg"
            /\ phase' = "done"
-           /\ out' = [api |-> ApiInt(t, v, Variant), ffi |-> FfiInt(t, v, Variant)]
+           /\ out' = IF t.k = "struct"
+                     THEN [api |-> StructStore(Garbage(SizeT(t)), t, v, Variant # "api_struct_nozero"),   \* _cffi_f_ wrapper
+                           ffi |-> StructStore(Garbage(SizeT(t)), t, v, Variant # "ffi_struct_nozero")]   \* cdata_call slot
+                     ELSE [api |-> ApiInt(t, v, Variant), ffi |-> FfiInt(t, v, Variant)]
            /\ UNCHANGED <<t, v>>
 Next == Pick \/ Convert
 Spec == Init /\ [][Next]_vars
 
 \* one invariant per clause
-ApiIsRule == phase = "done" => out.api = IdealInt(t, v)
-FfiIsRule == phase = "done" => out.ffi = IdealInt(t, v)
+ApiIsRule == (phase = "done" /\ t.k # "struct") => out.api = IdealInt(t, v)
+FfiIsRule == (phase = "done" /\ t.k # "struct") => out.ffi = IdealInt(t, v)
 PathsAgree == phase = "done" => out.api = out.ffi
+\* what the C function receives for a struct argument is the rule's value: missing fields are zero
+StoreIsRule(o) == LET id == ConvStruct(t, v) IN
+                  /\ o.ok = id.ok /\ o.exc = id.exc
+                  /\ id.ok => o.b = ImgOf(t, id.c)
+ApiStructIsRule == (phase = "done" /\ t.k = "struct") => StoreIsRule(out.api)
+FfiStructIsRule == (phase = "done" /\ t.k = "struct") => StoreIsRule(out.ffi)
 
 \* the digit library against TLC's own integers (the values of the window fit natively)
 ValOf(x) == IF x.neg THEN 0 - NatOf(x.mag) ELSE NatOf(x.mag)
